@@ -30,6 +30,13 @@ func Parse(r *Rendered) *File {
 	return f
 }
 
+// ParseInto parses rendered text into a shared file set (for files that are type-checked as one package).
+func ParseInto(fset *token.FileSet, name string, r *Rendered) *File {
+	f := &File{R: r, Fset: fset}
+	f.AST, f.Err = parser.ParseFile(fset, name, r.Text, parser.ParseComments|parser.SkipObjectResolution)
+	return f
+}
+
 // ParseStmts parses rendered text as a statement list (wrapped in a function returning error).
 func ParseStmts(r *Rendered) (*File, *ast.BlockStmt) {
 	wrapped := &Rendered{Text: "package p\nfunc _() error {\n" + r.Text + "\nreturn nil\n}\n"}
@@ -145,10 +152,16 @@ type TypeError struct {
 // all surface as errors. extra lets a caller supply packages of the same
 // abstract run (cross-package references).
 func TypeCheck(repo string, f *File, extra map[string]*types.Package) ([]TypeError, *types.Package, *types.Info, error) {
+	return TypeCheckFiles(repo, []*File{f}, extra)
+}
+
+// TypeCheckFiles type-checks several emitted files as ONE package (they must share a file set: see ParseInto).
+func TypeCheckFiles(repo string, fs []*File, extra map[string]*types.Package) ([]TypeError, *types.Package, *types.Info, error) {
 	pkgs, err := loadImports(repo)
 	if err != nil {
 		return nil, nil, nil, err
 	}
+	f := fs[0]
 	imp := &mapImporter{pkgs: pkgs, fakes: extra}
 	var errs []TypeError
 	lines := strings.Split(f.R.Text, "\n")
@@ -169,7 +182,11 @@ func TypeCheck(repo string, f *File, extra map[string]*types.Package) ([]TypeErr
 		},
 	}
 	info := &types.Info{Types: map[ast.Expr]types.TypeAndValue{}, Defs: map[*ast.Ident]types.Object{}, Uses: map[*ast.Ident]types.Object{}}
-	pkg, _ := conf.Check(f.AST.Name.Name, f.Fset, []*ast.File{f.AST}, info)
+	var asts []*ast.File
+	for _, x := range fs {
+		asts = append(asts, x.AST)
+	}
+	pkg, _ := conf.Check(f.AST.Name.Name, f.Fset, asts, info)
 	sort.SliceStable(errs, func(i, j int) bool { return errs[i].Line < errs[j].Line })
 	return errs, pkg, info, nil
 }
